@@ -136,7 +136,7 @@ def run(prog, rep, tier):
         slot = wst[0].idx == ("tuple", (i3, k3)) and wst[0].value == fit.recv
         okw = Xt == wantX and Yt == wantY and slot
         why = "X=%s Y=%s slot=%s" % (fmt(Xt)[:70], fmt(Yt)[:50], fmt(wst[0].idx))
-        guarded = any(pol is True and npred(c, True) in (("nonempty", pa3),) for c, pol in fit.path)
+        guarded = any(npred(c, pol) in (("nonempty", pa3),) for c, pol in fit.path)
         rep.check("SLOTS.sources", guarded, fwhere(f3, fit.node), "forests are fitted only for nodes that have parents (sources keep None)",
                   "the no-parents test is not `pa(i, graph) != set()`")
     if len(fits) == 1 and len(wst) == 1:
